@@ -15,7 +15,7 @@ from ..norm import Canon
 from ..paths import Frame
 from .common import bound_args, call_name, short
 
-FLOORS = {'C17.S1': 1, 'C17.S2': 2, 'C17.S3': 3}
+FLOORS = {'C17.S1': 1, 'C17.S2': 2, 'C17.S3': 3, 'C17.S4': 1}
 
 
 def returned_map_name(f):
@@ -44,12 +44,54 @@ def map_stores(f, name):
     return stores, others
 
 
+def s4(repo, res):
+    """the id -> machine table of the cluster maps every machine's id to that machine"""
+    from ..norm import ProvCanon
+    res.rule('C17.S4', 'Cluster.get_machine_from_id(i) returns the machine whose id is i: the lookup table is '
+                       'map[m.id: m for m in machines]')
+    pc = ProvCanon(repo)
+    g = repo.func('Cluster.get_machine_from_id')
+    gfr = Frame(g)
+    res.analysed(g, 1)
+    rets = [n for n in walk_no_nested(g.node) if isinstance(n, ast.Return) and n.value is not None]
+    idp = g.params[1]
+    tables = set()
+    ok = bool(rets)
+    for r in rets:
+        P = pc.p(r.value, gfr)
+        m_ = re.fullmatch(r'(Cluster\.\w+)\[%s\]' % re.escape(idp), P)
+        if m_:
+            tables.add(m_.group(1).split('.', 1)[1])
+        else:
+            ok = False
+            res.bad('C17.S4', g, r, 'get_machine_from_id returns %s' % short(P, 60),
+                    'the machine for a planned id is looked up as %s, not in the id table' % short(P, 80))
+    init = repo.func('Cluster.__init__')
+    ifr = Frame(init)
+    for t in sorted(tables):
+        stores = [n for n in ast.walk(init.node) if isinstance(n, ast.Assign) and any(
+            isinstance(x, ast.Attribute) and x.attr == t and isinstance(x.value, ast.Name) and x.value.id == 'self'
+            for x in n.targets)]
+        for n in stores:
+            P = pc.p(n.value, ifr)
+            want = re.fullmatch(r'map\[elem\((?P<M>Cluster\.\w+)\)\.id: elem\((?P=M)\) for (?P=M)\]', P)
+            if want:
+                res.ok('C17.S4', init, n, 'Cluster.%s = {m.id: m for m in %s}' % (t, want.group('M')))
+            else:
+                res.bad('C17.S4', init, n, 'Cluster.%s = %s' % (t, short(P, 70)),
+                        'the id table is built as %s, not as {m.id: m for every machine m}: a planned machine id can '
+                        'resolve to a different machine, and the task runs there' % short(P, 140))
+        if not stores:
+            res.bad('C17.S4', init, init.node, 'Cluster.%s never built' % t, 'the id table is never built')
+
+
 def check(repo, res, tier):
     canon = Canon(repo)
     res.rule('C17.S1', 'allocations[t] = cluster.get_machine_from_id(t.allocated_machine_id), same t')
     res.rule('C17.S2', 'allocated_machine_id written only in Task.__init__/update_allocation; '
                        'update_allocation called only by the scheduler with the proposed machine')
     res.rule('C17.S3', 'scheduler passes (t, schedule[t]) to the cluster; the cluster runs t on that machine')
+    s4(repo, res)
     f = repo.func('DynamicSchedulingFromPlan.run')
     fr = Frame(f)
     res.analysed(f, 0)
